@@ -171,6 +171,9 @@ impl Share {
 
   pub fn from_bytes(bytes: &[u8]) -> Option<Share> {
     let mut slice = bytes;
+    if slice.len() < ACCESS_STRUCTURE_LENGTH {
+      return None;
+    }
 
     // A: AccessStructure
     let a = AccessStructure::from_bytes(&slice[..ACCESS_STRUCTURE_LENGTH])?;
